@@ -157,6 +157,24 @@ def run(ctx):
     ctx.check(prog.const("h3::proto::stream::StreamId::FIRST_REQUEST") == 0, "C08-c", "h3::proto::stream::StreamId::FIRST_REQUEST", "= stream 0",
               "FIRST_REQUEST = %s" % prog.const("h3::proto::stream::StreamId::FIRST_REQUEST"), "0")
 
+    # ------------------------------------------------------------------ C08-b the line is drawn exactly when accept() ends
+    # accept() answering None means the application stops serving: the final shutdown(0) lowers the announced identifier to the
+    # first request not served, whatever a previous shutdown(n) had announced - otherwise the requests of the unused grace interval
+    # are below the last GOAWAY and are never served
+    acc = ru.need(ctx, "C08-b", SV + "accept::{closure#0}")
+    if acc:
+        ends = [p for p in ru.all_paths(ctx, "C08-b", acc, max_visits=1) if p.end == "return" and p.ret_shape() == "Ok(None)"]
+        ctx.floor("C08-b", "paths of accept() that end the accept loop", len(ends), 1)
+        for p in ends:
+            shc = [e for e in p.calls(SV + "shutdown")]
+            ok = len(shc) >= 1 and all(len(e[3]) == 2 and expr.fold(e[3][1], prog.consts) == 0 for e in shc) and \
+                any(e[2].ckey == SV + "shutdown::{closure#0}" or (e[2].ckey or "").endswith("Future>::poll") for e in p.calls()[p.calls().index(shc[0]):]) if shc else False
+            cond = [t for t in p.tests if "sent_closing" in t[1] or "last_accepted" in t[1]]
+            ctx.check(bool(ok) and not cond, "C08-b", acc.key, "accept() ends only after the final shutdown(0) was awaited, unconditionally",
+                      "accept() returns Ok(None) on a path that %s: after an earlier shutdown(n), n > 0, the last GOAWAY on the wire stays above "
+                      "the requests actually served, and those of the unused grace interval are neither served nor rejected"
+                      % ("tests %s first" % cond[0][1][:60] if cond and ok else "does not await shutdown(0)"), "", None, p.describe())
+
     # ------------------------------------------------------------------ C08-b accept loop
     ac = ru.need(ctx, "C08-b", SV + "poll_accept_request_stream_internal")
     if ac:
@@ -165,8 +183,8 @@ def run(ctx):
         its = []
         for h in heads:
             its += ex.paths(start=h, stop_at=heads)
-        got = [p for p in its if dp.classify(p, lambda r: r[0] == "call" and r[1] == CI + "poll_accept_bi").get(("?",)) == "Ready"
-               or "Ready" in [t[2] for t in p.tests if t[3][0] == "discr" and pa.head_call(t[3])[0] == CI + "poll_accept_bi"]]
+        # iterations on which poll_accept_bi answered Ready(Ok(stream)), however the result was taken apart (`?` on the Poll, explicit arms)
+        got = [p for p in its if "Ready" in p.outcomes(CI + "poll_accept_bi") and "Err" not in p.outcomes(CI + "poll_accept_bi")]
         ctx.floor("C08-b", "iterations that accepted a stream", len(got), 3)
 
         def is_id(v):
@@ -289,3 +307,5 @@ def run(ctx):
     if not getattr(ctx, "nested", False):
         from rules import C16 as _c16p, shared as _shp
         _c16p.run(_shp.Proxy(ctx, ("C16-a",), "C08-c"))
+        # "not a client-initiated bidirectional stream ID": the predicate the client applies to a received identifier (C16-b truth table)
+        _c16p.run(_shp.Proxy(ctx, ("C16-b",), "C08-d", only=("StreamId::is_request",)))
